@@ -1,6 +1,6 @@
 SPECIFICATION SpecD
 CONSTANTS N = 3
-  Walkers = {"resolve", "length", "xref", "pages", "outline", "nametree", "filters", "decode", "fields", "parents", "objwalk"}
+  Walkers = {"resolve", "length", "xref", "pages", "outline", "nametree", "filters", "decode", "fields", "parents", "objwalk", "navnode"}
   MaxDepth = 4
   MaxChain = 3
   StackCap = 12
@@ -13,5 +13,6 @@ CONSTANTS N = 3
   G_WALKDEPTH = FALSE
   G_FILTERTOP = TRUE
   FSTREAM = FALSE
+  G_NAVACC = TRUE
 INVARIANTS EmitCase NoOverflow WorkBounded ChainBounded
 CHECK_DEADLOCK TRUE
